@@ -41,7 +41,7 @@ NREG = 10
 CTORS = ['ni', 'nf', 'ns', 'np', 'na', 'na', 'na', 'nl', 'nl', 'nt', 'nt', 'nr', 'nr', 'nu', 'nR', 'ng', 'nn', 'nn']
 MUT = ['pu', 'pu', 'ap', 'pa', 'pa', 'po', 'pt', 'se', 'se', 'rm', 'rm', 'so', 'rs', 'cl', 'cc', 'as', 'sw', 'cp', 'el', 'el', 'el', 'el']
 OBS = ['ge', 'ge', 'me', 'ln', 'ha', 'it', 'it', 'ib', 'sl', 'rv', 'zp', 'en', 'fi', 'ma', 'ty', 'sh', 'de', 'ci', 'cm', 'lk', 'iq']
-FREE = ['tc', 'tc', 'tn', 'rg', 'fm', 'fm', 'fm', 'sn', 'ca', 'gc', 'gc', 'D', 'D', 'dr', 'dr', 'dl', 'dl', 'th', 'mx', 'fl', 'hp', 'tf', 'tf', 'rw', 'sk', 'sk', 'mm', 'mm', 'mm']
+FREE = ['tc', 'tc', 'tn', 'rg', 'fm', 'fm', 'fm', 'sn', 'ca', 'gc', 'gc', 'D', 'D', 'dr', 'dr', 'dl', 'dl', 'th', 'mx', 'fl', 'hp', 'tf', 'tf', 'rw', 'sk', 'sk', 'mm', 'mm', 'mm', 'hv', 'hv']
 
 
 def rint(rng):
@@ -210,6 +210,8 @@ def gen_wl(rng, nops):
                 if op == 'dl':      # the harness clears the Refs to a deleted object; which ones is not tracked here
                     for q in [q for q, kd in kinds.items() if kd == 'Ref']:
                         pass
+            elif op == 'hv':
+                toks.append('hv:%d,%d,%d' % (rng.randrange(10), rng.randrange(0, 200), rint(rng)))
             elif op == 'mm':
                 toks.append('mm:%d,%d,%d' % (rng.randrange(16), rng.randrange(0, 64), rint(rng)))
             elif op == 'tf':
@@ -522,6 +524,8 @@ def join(pre, toks):
 
 
 CORPUS_WL = [
+    # seed C18-r6-1: heap views holding the only reference to their inputs, a collection, then use of the view
+    'wl|' + ' '.join('hv:%d,%d,%d' % (k, 7 + 5 * k, 3 + k) for k in range(10)) + ' gc D',
     # seed C18-r4-2: manual memory management, every destructor path with boundary contents (emptied Box, …)
     'wl|' + ' '.join('mm:%d,%d,%d' % (k, 5 + 3 * k, 7 + k) for k in range(16)) + ' gc D',
     'wl|mm:0,1,1 mm:1,63,5 mm:2,0,4 mm:1,21,0 mm:3,9,4 mm:4,9,0 mm:6,3,1 mm:6,3,0 mm:7,2,0 mm:7,2,4 mm:11,4,0 mm:12,8,3 mm:13,1,1 mm:14,2,2 gc D',
@@ -546,6 +550,62 @@ CORPUS_SEQ = [
     'seq|5|g1',           # outside the contract: checked builds raise, unchecked builds are not run
     'seq||o',
 ]
+
+
+MY_COQ_FILES = {'Generated.v', 'Config.v', 'ConfigProofs.v', 'ConfigGlue.v', 'Properties_C18.v', 'Properties_C18_glue.v'}
+
+
+def coq_glue(ctx):
+    """Second Coq step: Properties_C18_glue.v (hypotheses discharged from C08 / C01 / C04 theorems).  Its cone contains
+    other properties' modules.  A failure inside one of C18's own files is a C18 obligation; a failure inside another
+    property's module (its source tie broke: that property's check reports it) is recorded in the evidence as
+    'inherited' and does not make C18 alarm — C18's own statements (Properties_C18.v) are unaffected by it."""
+    core = {k: ctx.cov.get(k) for k in ('obligations', 'discharged', 'checker_cmd')}
+    core_tb = list(ctx.cov.get('trusted_base') or [])
+    core_broken = getattr(ctx, 'proof_broken', None)
+    core_thms = list(getattr(ctx, 'theorems', []))
+    ok = ctx.coq('Properties_C18_glue.v')
+    g_obl, g_dis, g_msg = ctx.cov.get('obligations') or 0, ctx.cov.get('discharged') or 0, getattr(ctx, 'proof_broken', None)
+    g_tb = list(ctx.cov.get('trusted_base') or [])
+    ctx.theorems = core_thms + list(getattr(ctx, 'theorems', []))
+    ctx.cov['checker_cmd'] = '%s ; %s' % (core['checker_cmd'], ctx.cov.get('checker_cmd'))
+    if ok:
+        ctx.cov['obligations'] = (core['obligations'] or 0) + g_obl
+        ctx.cov['discharged'] = (core['discharged'] or 0) + g_dis
+        ctx.cov['trusted_base'] = core_tb + [t for t in g_tb if t not in core_tb]
+        ctx.cov['glue_status'] = 're-established in this run (%d statements)' % g_dis
+        ctx.proof_broken = core_broken
+        return
+    m = re.search(r'\((?:\./)?([A-Za-z0-9_]+\.v):\d+\)', g_msg or '')
+    culprit = m.group(1) if m else None
+    if culprit is None and getattr(ctx, 'gen_dependent', False):
+        # vlib rebuilt the cone against the last known-good Generated.v: the file that did not build against the
+        # regenerated one is named in the first error
+        m = re.search(r'File "(?:\./)?([A-Za-z0-9_]+\.v)"', getattr(ctx, 'gen_first_error', '') or '')
+        culprit = m.group(1) if m else None
+        if culprit in MY_COQ_FILES and not any(g.split()[1].startswith(('cfg_', 'genx_cfg')) for g in ctx.gen_broken if len(g.split()) > 1):
+            culprit = None
+    if core_broken:
+        ctx.proof_broken = core_broken
+        ctx.cov['obligations'] = (core['obligations'] or 0) + g_obl
+        ctx.cov['discharged'] = core['discharged'] or 0
+        ctx.cov['trusted_base'] = core_tb
+        ctx.cov['glue_status'] = 'not checked: the core obligations are broken'
+    elif culprit is None or culprit in MY_COQ_FILES:
+        ctx.cov['obligations'] = (core['obligations'] or 0) + g_obl
+        ctx.cov['discharged'] = (core['discharged'] or 0) + g_dis
+        ctx.cov['trusted_base'] = core_tb
+        ctx.cov['glue_status'] = 'BROKEN in C18\'s own files: ' + (g_msg or '')[:300]
+        ctx.proof_broken = g_msg
+    else:
+        ctx.cov['obligations'] = core['obligations']
+        ctx.cov['discharged'] = core['discharged']
+        ctx.cov['trusted_base'] = core_tb
+        ctx.cov['glue_status'] = ('not re-established in this run (inherited): %s, a module of another property, does not build against '
+                                  'the regenerated Generated.v — that property\'s check reports it; the statements of '
+                                  'Properties_C18_glue.v (G1-G7) are instances of its theorems' % culprit)
+        ctx.notes.append('glue statements not re-established: ' + culprit + ' does not build (inherited from its owner)')
+        ctx.proof_broken = None
 
 
 def run(ctx):
@@ -581,6 +641,7 @@ def run(ctx):
         'array correspondence stream',
         'cache transparency and collector transparency are the statements of C08 and C01 and are not re-proved here']
     ctx.coq()
+    coq_glue(ctx)
     try:
         drv = ctx.build_driver('Config')
     except vlib.ModelBuildError as e:
